@@ -287,14 +287,14 @@ PROPS['C17'] = {
 
 PROPS['C07'] = {
     'title': 'Restore of a snapshot reproduces the collection exactly',
-    'modules': ['ColumnVerif.Props.C07', 'ColumnVerif.Props.C07wire', 'ColumnVerif.Props.C07skel'],
+    'modules': ['ColumnVerif.Props.C07', 'ColumnVerif.Props.C07more', 'ColumnVerif.Props.C07wire', 'ColumnVerif.Props.C07skel'],
     'runs': [{'mode': 'store'}],
     'skeleton': True,
     'trusted_base': STORE_TB + [SKEL_TB],
     'assumptions': [
         "store-level theorem (readState ∘ snapshot through the real Store.commit) is for numeric columns and the fill list; string/record/key/bool columns are proved at column level (restoring a chunk's snapshot buffer into a fresh column reproduces every read of that chunk); enum columns, the key lookup table, index/sorted-index contents after restore and the log tail replay are exercised by the correspondence (indexes: C03's pass lemma applies)",
         "numeric slots are canonical (a present slot holds width bytes): a present empty slot is written zero-padded by the snapshot",
-        "'behaves like the original afterwards' (new inserts never overwrite restored rows) follows from the restored fill list being equal bit for bit + C11; it is also checked by continuing the same history on both collections in the correspondence",
+        "'the same Count', 'new inserts never overwrite restored rows' and 'later snapshots round-trip again' are theorems of Props/C07more (readState_count_eq, restored_insert_not_restored_row, restored_inserts_never_collide, snapshot_again_numeric, snapshot_again_row) for the fill list and numeric columns; Count equality needs the source and the target to be quiescent (count = popcount) — a target with a stale counter and a source chunk without live rows keeps the stale counter (kernel-checked example readState_count_needs_hypothesis; not reachable from NewCollection); the other kinds are exercised by continuing the same history on both collections in the correspondence",
         "byte level of the state stream: Model/StateWire (encState/readStateRaw) with C07wire.state_roundtrip / state_roundtrip_ops / snapshot_buffers_count, tied byte for byte by the statehash op (FNV of the uncompressed state section, commit ids by rank) in every snapshot cycle; s2 compression is outside the model",
     ],
     'level_text': "Lean theorems over the executable snapshot model: the state a snapshot writes for a chunk (one insert marker per occupied offset, one Put per present value) applied to a fresh column / fill list reproduces every read and every fill bit of that chunk (numeric, string, record, key, bool; other chunks untouched; no panic); readState of a snapshot is a fold of per-chunk commits, and through the real Store.commit every committed offset of a numeric column reads the same in the restored store and the fill lists agree (identical rows at identical offsets); the bytes writeState emits decode (readState) to exactly the written chunk ids and buffers, operation for operation, and every chunk carries exactly `columns` buffers. Tied to the code by differential snapshot→restore→continue cycles over all column kinds incl. enum, bool, record, key, expire, sparse and dense chunks, differing capacities, with a Go-side dump-equality oracle.",
